@@ -119,6 +119,13 @@ def replaceSubstringsF (maxsize : Nat) (input sub rep : Str) : Option Str :=
     | none => none
     | some st => some (st.1 ++ [NUL])
 
+/-! ## a membership table for `strchr` (what the seeded change caches) -/
+
+/-- the 256-entry table `member[c] = (c == 0 || c occurs in delims)` built from the CONTENTS of
+the delimiter string -/
+def delimTable (d : Str) : List Bool :=
+  (List.range 256).map fun i => i == 0 || d.any (fun c => c.toNat == i)
+
 /-! ## constants and widths embedded in the models -/
 
 /-- width of `unsigned int` (`*p_len` of `path_next`, the counter of the iterator-range `join`) -/
